@@ -72,6 +72,9 @@ inductive WT (Γ : Env) : Expr → Nat → Kind → Prop
   | slc (x w : Nat) (lo hi : Expr) (l u : Int) :
       w < 1024 → constVal lo = some l → constVal hi = some u → 0 ≤ l → l < u → u ≤ w →
       WT Γ (.slc x w lo hi) (u - l).toNat .bits
+  | slcP (x w : Nat) (lo nn : Expr) (sz : Int) :
+      w < 1024 → intOnly lo = true → constVal nn = some sz → 1 ≤ sz →
+      WT Γ (.slc x w lo (.bin .add lo nn)) sz.toNat .bits
 
 /-- a term of kind `lit` can be typed at any larger width -/
 theorem WT.lit_mono {Γ : Env} {e : Expr} {w : Nat} {k : Kind} (h : WT Γ e w k) :
@@ -97,7 +100,7 @@ theorem WT.lit_mono {Γ : Env} {e : Expr} {w : Nat} {k : Kind} (h : WT Γ e w k)
     have h1 : k1 = .lit := by cases k1 <;> cases k2 <;> simp_all [Kind.join]
     have h2 : k2 = .lit := by cases k1 <;> cases k2 <;> simp_all [Kind.join]
     exact .iteW c t f wc w' kc .lit .lit hcw (iht h1 w' hw) (ihf h2 w' hw)
-  | sig | tmpB | un | binL | binR | shift | cmpL | cmpR | cast | widen | trunc | red | cat | idxI | idxW | slc =>
+  | sig | tmpB | un | binL | binR | shift | cmpL | cmpR | cast | widen | trunc | red | cat | idxI | idxW | slc | slcP =>
     intro hk; cases hk
 
 /-! ## `hard` implies explicit; annotations of the rules -/
@@ -113,7 +116,7 @@ theorem binRule_ex {op : Op} {tl tr t : AT} (h : binRule op tl tr = .ok t) :
     | error e => simp [hf] at h
     | ok a =>
       simp only [hf] at h; cases h
-      rcases foldBin_cases hf with ⟨rfl, _⟩ | ⟨_, _, _, _, _, _, rfl⟩ <;> rfl
+      rcases foldBin_cases hf with rfl | ⟨_, _, _, _, _, _, _, rfl⟩ <;> rfl
   · next hs =>
     simp only [hs, Bool.false_eq_true, ↓reduceIte]
     cases hu : unify tl tr with
@@ -124,7 +127,7 @@ theorem binRule_ex {op : Op} {tl tr t : AT} (h : binRule op tl tr = .ok t) :
       | error e => simp [hf] at h
       | ok a =>
         simp only [hf] at h; cases h
-        rcases foldBin_cases hf with ⟨rfl, _⟩ | ⟨_, _, _, _, _, _, rfl⟩ <;> rfl
+        rcases foldBin_cases hf with rfl | ⟨_, _, _, _, _, _, _, rfl⟩ <;> rfl
 
 theorem hard_ex (Γ : Env) : ∀ (e : Expr) (t : AT), checkE Γ e = .ok t → hardE Γ e = true → t.ann.ex = true := by
   intro e
@@ -313,7 +316,7 @@ theorem checkE_WT_aux (Γ : Env) : ∀ (e : Expr) (t : AT), checkE Γ e = .ok t 
         | ok a =>
           simp only [hf] at hb; cases hb
           simp only [ann_n2] at hcb hbex ⊢
-          rcases foldBin_cases hf with ⟨rfl, hnf⟩ | ⟨lv', rv', v, hlv, hrv, hv, rfl⟩
+          rcases foldBin_cases hf with rfl | ⟨lv', rv', v, hlv, hrv, hv, hex0, rfl⟩
           · by_cases hh : (hardE Γ l || hardE Γ r) = true
             · refine ⟨?_, fun _ v hv => by simp at hv⟩
               simp only [hardE, hs, Bool.false_eq_true, ↓reduceIte, hh, kindOf]
@@ -339,24 +342,27 @@ theorem checkE_WT_aux (Γ : Env) : ∀ (e : Expr) (t : AT), checkE Γ e = .ok t 
                 exact .binR op l r _ _ hs a1 a2
             · simp only [hh, Bool.false_eq_true, ↓reduceIte, foldedNonneg] at hcb
               split at hcb <;> simp at hcb
-          · by_cases hh : (hardE Γ l || hardE Γ r) = true
-            · simp [hh, hlv, hrv] at hcb
-            · simp only [hh, Bool.false_eq_true, ↓reduceIte] at hcb
-              by_cases hi : (!tl.ann.ex && !tr.ann.ex) = true
-              · simp only [hi, ↓reduceIte] at hcb
-                have hle : tl.ann.ex = false := by cases h1 : tl.ann.ex <;> simp_all
-                have hre : tr.ann.ex = false := by cases h1 : tr.ann.ex <;> simp_all
-                by_cases hn : foldedNonneg ⟨nbitsInt v, tl.ann.ex || tr.ann.ex, some v⟩ = true
-                · obtain ⟨v', hv', h0⟩ := foldedNonneg_iff.mp hn
-                  cases hv'
-                  have hcv : constVal (.bin op l r) = some v := by
-                    simp [constVal, c1 hle _ hlv, c2 hre _ hrv, hv]
-                  have hh' : (hardE Γ l || hardE Γ r) = false := by simpa using hh
-                  refine ⟨?_, fun _ v' hv' => by simp at hv'; subst hv'; exact hcv⟩
-                  simp only [hardE, hs, Bool.false_eq_true, ↓reduceIte, hh', kindOf, hle, hre, Bool.or_self]
-                  exact .const _ v _ hcv h0 (fits_nbitsInt v h0).2
-                · simp [hn] at hcb
-              · simp [hi] at hcb
+          · have hle : tl.ann.ex = false := by cases h1 : tl.ann.ex <;> simp_all
+            have hre : tr.ann.ex = false := by cases h1 : tr.ann.ex <;> simp_all
+            have hh1 : hardE Γ l = false := by
+              cases h1 : hardE Γ l
+              · rfl
+              · simp [hxl h1] at hle
+            have hh2 : hardE Γ r = false := by
+              cases h1 : hardE Γ r
+              · rfl
+              · simp [hxr h1] at hre
+            simp only [hh1, hh2, Bool.or_self, Bool.false_eq_true, ↓reduceIte, hle, hre, Bool.not_false,
+              Bool.and_self] at hcb
+            by_cases hn : foldedNonneg ⟨nbitsInt v, false, some v⟩ = true
+            · obtain ⟨v', hv', h0⟩ := foldedNonneg_iff.mp hn
+              cases hv'
+              have hcv : constVal (.bin op l r) = some v := by
+                simp [constVal, c1 hle _ hlv, c2 hre _ hrv, hv]
+              refine ⟨?_, fun _ v' hv' => by simp at hv'; subst hv'; exact hcv⟩
+              simp only [hardE, hs, Bool.false_eq_true, ↓reduceIte, hh1, hh2, kindOf, hle, hre, Bool.or_self]
+              exact .const _ v _ hcv h0 (fits_nbitsInt v h0).2
+            · simp [hn] at hcb
     · -- shift
       simp only [hs, ↓reduceIte] at hb hcb hbex
       cases hf : foldBin op tl.ann tr.ann tl.ann.w tl.ann.ex with
@@ -364,10 +370,10 @@ theorem checkE_WT_aux (Γ : Env) : ∀ (e : Expr) (t : AT), checkE Γ e = .ok t 
       | ok a =>
         simp only [hf] at hb; cases hb
         simp only [ann_n2] at hcb hbex ⊢
-        rcases foldBin_cases hf with ⟨rfl, hnf⟩ | ⟨lv', rv', v, hlv, hrv, hv, rfl⟩
+        rcases foldBin_cases hf with rfl | ⟨lv', rv', v, hlv, hrv, hv, hex0, rfl⟩
         · cases hhl : hardE Γ l with
           | true =>
-            simp only [hhl, ↓reduceIte, hnf, Bool.false_eq_true, List.nil_append] at hcb
+            simp only [hhl, ↓reduceIte] at hcb
             refine ⟨?_, fun _ v hv => by simp at hv⟩
             simp only [hardE, hs, ↓reduceIte, hhl, kindOf]
             have a1 : WT Γ l tl.ann.w .bits := by simpa [kindOf, hhl] using w1
@@ -387,25 +393,25 @@ theorem checkE_WT_aux (Γ : Env) : ∀ (e : Expr) (t : AT), checkE Γ e = .ok t 
           | false =>
             simp only [hhl, Bool.false_eq_true, ↓reduceIte, foldedNonneg] at hcb
             split at hcb <;> (try split at hcb) <;> simp at hcb
-        · cases hhl : hardE Γ l with
-          | true => simp [hhl, hlv, hrv] at hcb
-          | false =>
-            simp only [hhl, Bool.false_eq_true, ↓reduceIte] at hcb
-            by_cases hi : (!tl.ann.ex && !tr.ann.ex) = true
-            · simp only [hi, ↓reduceIte] at hcb
-              have hle : tl.ann.ex = false := by cases h1 : tl.ann.ex <;> simp_all
-              have hre : tr.ann.ex = false := by cases h1 : tr.ann.ex <;> simp_all
-              by_cases hn : foldedNonneg ⟨nbitsInt v, tl.ann.ex, some v⟩ = true
-              · obtain ⟨v', hv', h0⟩ := foldedNonneg_iff.mp hn
-                cases hv'
-                have hcv : constVal (.bin op l r) = some v := by
-                  simp [constVal, c1 hle _ hlv, c2 hre _ hrv, hv]
-                refine ⟨?_, fun _ v' hv' => by simp at hv'; subst hv'; exact hcv⟩
-                simp only [hardE, hs, ↓reduceIte, hhl, kindOf, hle, Bool.false_eq_true]
-                exact .const _ v _ hcv h0 (fits_nbitsInt v h0).2
-              · simp [hn] at hcb
-            · simp only [hi, Bool.false_eq_true, ↓reduceIte] at hcb
-              split at hcb <;> simp at hcb
+        · have hhl : hardE Γ l = false := by
+            cases h1 : hardE Γ l
+            · rfl
+            · simp [hxl h1] at hex0
+          simp only [hhl, Bool.false_eq_true, ↓reduceIte] at hcb
+          by_cases hi : (!tl.ann.ex && !tr.ann.ex) = true
+          · simp only [hi, ↓reduceIte] at hcb
+            have hre : tr.ann.ex = false := by cases h1 : tr.ann.ex <;> simp_all
+            by_cases hn : foldedNonneg ⟨nbitsInt v, tl.ann.ex, some v⟩ = true
+            · obtain ⟨v', hv', h0⟩ := foldedNonneg_iff.mp hn
+              cases hv'
+              have hcv : constVal (.bin op l r) = some v := by
+                simp [constVal, c1 hex0 _ hlv, c2 hre _ hrv, hv]
+              refine ⟨?_, fun _ v' hv' => by simp at hv'; subst hv'; exact hcv⟩
+              simp only [hardE, hs, ↓reduceIte, hhl, kindOf, hex0, Bool.false_eq_true]
+              exact .const _ v _ hcv h0 (fits_nbitsInt v h0).2
+            · simp [hn] at hcb
+          · simp only [hi, Bool.false_eq_true, ↓reduceIte] at hcb
+            split at hcb <;> simp at hcb
   | cmp op l r ihl ihr =>
     intro t h hc
     obtain ⟨tl, tr, hl, hr, hb⟩ := checkE_cmp_inv h
@@ -463,7 +469,7 @@ theorem checkE_WT_aux (Γ : Env) : ∀ (e : Expr) (t : AT), checkE Γ e = .ok t 
       · exact .iteI c a b _ _ _ hio a1 a2
       · simp only [hio, Bool.false_eq_true, ↓reduceIte] at hpc
         exact .iteW c a b _ _ _ _ _ (ihc tc hcc hpc).1 a1 a2
-    · split at hiw <;> cases hiw
+    · cases hiw
   | cast n a ih =>
     intro t h hc
     obtain ⟨te, he, rfl⟩ := checkE_cast_inv h
@@ -546,22 +552,29 @@ theorem checkE_WT_aux (Γ : Env) : ∀ (e : Expr) (t : AT), checkE Γ e = .ok t 
     simp only [issuesE, hlo, hhi, annOf_ok, List.append_eq_nil_iff] at hc
     obtain ⟨hcw, hcb⟩ := hc
     obtain ⟨_, hw2⟩ := widthIssues_nil hcw
+    have hio : intOnly lo = true ∧ intOnly hi = true := by
+      by_cases hb : (intOnly lo && intOnly hi) = true
+      · simpa using hb
+      · split at hcb <;> simp [hb] at hcb
+    refine ⟨?_, fun hx => by obtain ⟨n, hn⟩ := slcRule_ann_shape hr; simp [hn] at hx⟩
     cases hvl : tlo.ann.val with
-    | none => simp [hvl] at hcb
     | some l =>
       cases hvu : thi.ann.val with
-      | none => simp [hvl, hvu] at hcb
       | some u =>
-        simp only [hvl, hvu] at hcb
-        have hio : intOnly lo = true ∧ intOnly hi = true := by
-          by_cases hb : (intOnly lo && intOnly hi) = true
-          · simpa using hb
-          · simp [hb] at hcb
         obtain ⟨h1, h2, h3, hann⟩ := slcRule_const hr hvl hvu
         rw [hann]
-        refine ⟨?_, fun hx => by simp at hx⟩
         exact .slc x w lo hi l u hw2 (intOnly_constVal Γ lo hio.1 tlo hlo l hvl)
           (intOnly_constVal Γ hi hio.2 thi hhi u hvu) h2 h1 h3
+      | none =>
+        obtain ⟨sz, nn, tN, rfl, hcN, hsz, hge, hann⟩ := slcRule_plus_inv Γ hhi hr (by simp [hvu])
+        rw [hann]
+        simp only [intOnly, Bool.and_eq_true] at hio
+        exact .slcP x w lo nn sz hw2 hio.1 (intOnly_constVal Γ nn hio.2.2 tN hcN sz hsz) hge
+    | none =>
+      obtain ⟨sz, nn, tN, rfl, hcN, hsz, hge, hann⟩ := slcRule_plus_inv Γ hhi hr (by simp [hvl])
+      rw [hann]
+      simp only [intOnly, Bool.and_eq_true] at hio
+      exact .slcP x w lo nn sz hw2 hio.1 (intOnly_constVal Γ nn hio.2.2 tN hcN sz hsz) hge
 
 theorem checkE_WT (Γ : Env) (e : Expr) (t : AT) (h : checkE Γ e = .ok t) (hc : issuesE Γ e = []) :
     WT Γ e t.ann.w (kindOf t.ann (hardE Γ e)) := (checkE_WT_aux Γ e t h hc).1
@@ -607,17 +620,12 @@ theorem checkS_WTS : ∀ (s : Stmt) (Γ Γ' : Env) (a : AS), checkS Γ s = .ok (
   | asg tgt e =>
     intro Γ Γ' a h hc
     obtain ⟨hT, _, tt, te, hct, hce, hr⟩ := checkS_asg_inv h
-    simp only [issuesS, hct, hce, annOf_ok, List.append_eq_nil_iff] at hc
-    obtain ⟨⟨hit, hie⟩, hfit⟩ := hc
+    simp only [issuesS, List.append_eq_nil_iff] at hc
+    obtain ⟨hit, hie⟩ := hc
     have w1 := checkE_WT Γ tgt tt hct hit
     have w2 := checkE_WT Γ e te hce hie
     simp only [target_hard Γ tgt hT, kindOf, ↓reduceIte] at w1
-    refine .asg Γ tgt e tt.ann.w _ hT w1 (w2.at_width (hard_ex Γ e te hce) (asgRule_ok hr) ?_)
-    intro hex
-    by_cases hw : te.ann.w ≤ tt.ann.w
-    · exact hw
-    · have : te.ann.w > tt.ann.w := by omega
-      simp [hex, this] at hfit
+    exact .asg Γ tgt e tt.ann.w _ hT w1 (w2.at_width (hard_ex Γ e te hce) (asgRule_ok hr).1 (asgRule_ok hr).2)
   | tasg t e =>
     intro Γ Γ' a h hc
     obtain ⟨te, he, _, _⟩ := checkS_tasg_inv h
